@@ -290,6 +290,8 @@ class CContext:
         else:
             assert isinstance(typ, types.BasicType)
             tid = typ.type_id
+        if tid not in self.ctypes_names:
+            self.error(f"Initial values of type {tid} are not supported", None)
         fmt = self.ctypes_names[tid]
         # Check format with arch options:
         assert self.sizeof(typ) == struct.calcsize(fmt)
